@@ -376,6 +376,9 @@ def gen_config(cs, tier='quick', force=None):
         outs = list(reversed(_state['geo3']['outputs']))     # the separator-printed outputs first in the pick order
     c['iter_fail'] = cs.choose(3, 'iter_fail') == 2
     names = list(table)
+    if force.get('discrete'):
+        # (forced: a settings file with discrete inputs only, so that sampled combinations repeat within a worker)
+        names = [n_ for n_ in names if any(x[0] == 'binomial' for x in table[n_]['ok'])]
     nin = 1 + cs.choose(min(4, len(names)), 'nin')
     inputs = []
     all_discrete = False
@@ -385,7 +388,7 @@ def gen_config(cs, tier='quick', force=None):
         name = names.pop(cs.choose(len(names), 'in'))
         spec = table[name]
         has_binom = [x for x in spec['ok'] if x[0] == 'binomial']
-        if j_ == 0 and has_binom and cs.choose(3 if not spec.get('discrete') else 2, 'all_discrete') == 1:
+        if j_ == 0 and has_binom and (cs.choose(3 if not spec.get('discrete') else 2, 'all_discrete') == 1 or force.get('discrete')):
             # settings files with discrete inputs only: sampled combinations repeat
             all_discrete = True
             names = [n_ for n_ in names if any(x[0] == 'binomial' for x in table[n_]['ok'])]
@@ -423,7 +426,7 @@ def gen_config(cs, tier='quick', force=None):
         # (an extra input is kept only if its arguments do not depend on the base input, which this scenario replaces)
         inputs = [dict(WL.HIP_9999_INPUT)] + [i_ for i_ in inputs if i_['name'] == 'Reservoir Area' and not i_['edge']
                                                 and i_.get('hash_arg') is None][:1]
-    sg_ = cs.choose(5, 'special_geo') if c['program'] == 'geo' and not force.get('inputs') and force.get('base') is None else 0
+    sg_ = cs.choose(5, 'special_geo') if c['program'] == 'geo' and not force.get('inputs') and force.get('base') is None and not force.get('discrete') else 0
     if sg_ == 4:
         # multiple parallel fractures with only the fracture separation sampled (see workloads.GEO_MPF_EXTRA)
         c['special'] = 'mpf'
